@@ -7,6 +7,13 @@
 (* and not been taken over yet, the memory handed out inside open scopes.  *)
 (* `release' is logged before the library marks the stack free, `got'      *)
 (* after the stack was obtained, so the log order is a linearisation.      *)
+(* Temporary stack mode 1 (tmpcfg.mode = "1"): the stack lives in          *)
+(* thread-local storage, is created by the first use or by an initializer  *)
+(* and destroyed by the initializer's destructor only ("if there is no     *)
+(* temporary_stack_initializer, it won't be destroyed"): nothing is taken  *)
+(* over between threads, and a leak report at exit is a violation only if  *)
+(* every stack was created under or followed by an initializer that was    *)
+(* destroyed.                                                              *)
 (***************************************************************************)
 EXTENDS Naturals, Integers, Sequences, FiniteSets, TLC, Json, IOUtils
 TraceFile == IF "TRACE" \in DOMAIN IOEnv THEN IOEnv.TRACE ELSE "trace.ndjson"
@@ -18,13 +25,18 @@ Chk(c, p, r, i) == IF c THEN {} ELSE {V(p, r, i)}
 Result(s, v) == [s |-> s, v |-> v]
 TIds == 0..100
 FreshState == [holds |-> [t \in TIds |-> -1], alive |-> {}, free |-> {}, known |-> {}, live |-> {},
-               inPar |-> FALSE, parRelease |-> FALSE, parFree |-> 0, parAcq |-> 0, parFresh |-> 0, exited |-> FALSE]
+               inPar |-> FALSE, parRelease |-> FALSE, parFree |-> 0, parAcq |-> 0, parFresh |-> 0, exited |-> FALSE,
+               mode |-> "2",
+               made |-> {},      \* mode 1: threads whose thread-local stack exists
+               guard |-> {}]     \* mode 1: threads with a live temporary_stack_initializer
 Overlap(a, b) == a.hi = b.hi /\ a.lo < b.lo + b.len /\ b.lo < a.lo + a.len
 
 Acquire(t, s, fresh, what) ==
   IF st.holds[t] # -1
-  THEN Result(st, Chk(st.holds[t] = s, "C14", "StackStableWhileHeld", <<what, t, st.holds[t], s>>))
+  THEN Result([st EXCEPT !.guard = IF what = "init" THEN @ \cup {t} ELSE @],
+              Chk(st.holds[t] = s, "C14", "StackStableWhileHeld", <<what, t, st.holds[t], s>>))
   ELSE Result([st EXCEPT !.holds[t] = s, !.free = @ \ {s}, !.known = @ \cup {s},
+                         !.made = @ \cup {t}, !.guard = IF what = "init" THEN @ \cup {t} ELSE @,
                          !.parAcq = IF st.inPar THEN @ + 1 ELSE @,
                          !.parFresh = IF st.inPar /\ fresh THEN @ + 1 ELSE @],
          Chk(\A u \in st.alive : u = t \/ st.holds[u] # s, "C14", "NoTwoLiveThreadsShareAStack",
@@ -33,14 +45,17 @@ Acquire(t, s, fresh, what) ==
          \* a new stack is created only if no released one is waiting.  Inside a concurrent block the
          \* log order of two acquisitions is not their order in the list, so the block is judged as
          \* a whole at its end.
-         \cup Chk(~fresh \/ st.free = {} \/ st.inPar, "C14", "AdoptBeforeCreate", <<what, t, s, st.free>>))
+         \cup Chk(~fresh \/ st.free = {} \/ st.inPar \/ st.mode = "1", "C14", "AdoptBeforeCreate", <<what, t, s, st.free>>))
 
 OnTstart(e) == Result([st EXCEPT !.alive = @ \cup {e.t}], {})
 OnGot(e) == Acquire(e.t, e.s, e.fresh, e.via)
 OnScopeBegin(e) == Acquire(e.t, e.s, e.fresh, "scope")
 OnRelease(e) ==
   LET s == st.holds[e.t]
+      \* mode 1: the initializer's destructor (explicit, or at the end of the thread that owns one) destroys the stack
+      destroyed == e.via = "uninit" \/ e.t \in st.guard
   IN Result([st EXCEPT !.holds[e.t] = -1, !.free = IF s = -1 THEN @ ELSE @ \cup {s},
+                       !.made = IF destroyed THEN @ \ {e.t} ELSE @, !.guard = @ \ {e.t},
                        !.parRelease = @ \/ st.inPar], {})
 OnTexit(e) == Result([st EXCEPT !.alive = @ \ {e.t}], Chk(st.holds[e.t] = -1, "X", "ExitWithoutRelease", <<e.t>>))
 OnTalloc(e) ==
@@ -58,16 +73,17 @@ OnClosing(e) ==
 OnScopeEnd(e) == Result(st, Chk(e.same, "C14", "ScopeRestoresStack", <<e.t, e.depth>>))
 OnTcheck(e) == Result(st, Chk(e.bad = 0, "C14", "ContentIntactUntilScopeEnds", <<e.t, e.bad>>))
 OnH(e) ==
-  IF e.k = "leak" THEN Result(st, {V("C14", IF st.exited THEN "AllFreedAtExit" ELSE "NoLeakReportWhileRunning", <<e.name, e.amt>>)})
+  IF e.k = "leak" THEN Result(st, IF st.exited /\ st.mode = "1" /\ st.made # {} THEN {}      \* documented: not destroyed without an initializer
+                                  ELSE {V("C14", IF st.exited THEN "AllFreedAtExit" ELSE "NoLeakReportWhileRunning", <<e.name, e.amt, st.made>>)})
   ELSE Result(st, Chk(e.k \notin {"invptr", "overflow"}, "C16", "ValidReleaseNeverReported", <<e.k>>))
 
 Apply(e) ==
-  CASE e.e = "tmpcfg" -> Result(st, {})
+  CASE e.e = "tmpcfg" -> Result([st EXCEPT !.mode = e.mode], {})
     [] e.e = "at" -> Result(st, {})      \* atomic steps of the stack list: judged by TempListTrace
     \* a scope that made the stack take further blocks: they are kept for reuse when it ends (next_capacity() is
     \* again what it was before the scope) unless shrink_to_fit() was requested, in which case they have gone back
     \* (nothing cached: next_capacity() is what the block source delivers next, later than any block taken so far)
-    [] e.e = "tpair" -> Result(st, Chk(e.r = "ok", "C14", "ScopeRestoresStack", <<"pair", e.r>>)
+    [] e.e = "tpair" -> Result([st EXCEPT !.made = @ \cup {e.t}], Chk(e.r = "ok", "C14", "ScopeRestoresStack", <<"pair", e.r>>)
                                \cup Chk(e.shr \/ e.r # "ok" \/ e.nca = e.nc0, "C14", "BlocksKeptForReuse", <<e.nc0, e.ncm, e.nca>>)
                                \* (blocks cached by earlier scopes go back as well, so the next block can be even later than ncm)
                                \cup Chk(~e.shr \/ e.r # "ok" \/ (e.nca >= e.ncm /\ (e.ncm > e.nc0 => e.nca > e.nc0)),
@@ -87,7 +103,7 @@ Apply(e) ==
     \* of A concurrent acquisitions with F released stacks waiting (and no release during the block)
     \* at least min(A, F) take a stack over, so at most A - min(A, F) create a new one
     [] e.e = "par_end" -> Result([st EXCEPT !.inPar = FALSE],
-                            Chk(st.parRelease \/ st.parFresh <= st.parAcq - (IF st.parAcq < st.parFree THEN st.parAcq ELSE st.parFree),
+                            Chk(st.mode = "1" \/ st.parRelease \/ st.parFresh <= st.parAcq - (IF st.parAcq < st.parFree THEN st.parAcq ELSE st.parFree),
                                 "C14", "AdoptBeforeCreate", <<"block", st.parAcq, st.parFree, st.parFresh>>))
     [] e.e = "pexit" -> Result([st EXCEPT !.exited = TRUE], {})
     [] e.e = "h" -> OnH(e)
